@@ -115,7 +115,8 @@ class LogitLink(Link):
         lp : np.array of length n
         """
         mu = np.asarray(mu, dtype='float64')  # integer / low-precision input
-        return np.log(mu) - np.log(dist.levels - mu)
+        levels = getattr(dist, 'levels', 1)  # only the binomial has several trials
+        return np.log(mu) - np.log(levels - mu)
 
     def mu(self, lp, dist):
         """
@@ -133,7 +134,8 @@ class LogitLink(Link):
         """
         lp = np.asarray(lp, dtype='float64')  # integer / low-precision input
         elp = np.exp(lp)
-        return dist.levels * elp / (elp + 1)
+        levels = getattr(dist, 'levels', 1)  # only the binomial has several trials
+        return levels * elp / (elp + 1)
 
     def gradient(self, mu, dist):
         """
@@ -149,7 +151,8 @@ class LogitLink(Link):
         grad : np.array of length n
         """
         mu = np.asarray(mu, dtype='float64')  # integer / low-precision input
-        return dist.levels / (mu * (dist.levels - mu))
+        levels = getattr(dist, 'levels', 1)  # only the binomial has several trials
+        return levels / (mu * (levels - mu))
 
 
 class LogLink(Link):
